@@ -253,6 +253,10 @@ def substitute_on_path(path: List[Tuple[cfgmod.Node, object]], expr: ast.AST) ->
   return _Sub(env).visit(copy.deepcopy(expr))
 
 
+class LookupFailed(Exception):
+  """A subscript on a model table / list has no such key (KeyError / IndexError in the interpreted code)."""
+
+
 class NoValue(Exception):
   pass
 
@@ -266,6 +270,12 @@ def dotted_name(e: ast.AST) -> str:
     parts.append(e.id)
     return '.'.join(reversed(parts))
   return ''
+
+
+def _lookup_failed(key: str) -> Exception:
+  class _LF(NoValue, LookupFailed):
+    pass
+  return _LF(key)
 
 
 def neval(e: ast.AST, env: Dict[str, object]):
@@ -285,7 +295,9 @@ def neval(e: ast.AST, env: Dict[str, object]):
     base, idx = neval(e.value, env), neval(e.slice, env)
     try:
       return base[idx]
-    except (KeyError, IndexError, TypeError):
+    except (KeyError, IndexError):
+      raise _lookup_failed(key)
+    except TypeError:
       raise NoValue(key)
   if isinstance(e, ast.BinOp):
     l, r = neval(e.left, env), neval(e.right, env)
@@ -315,10 +327,10 @@ def neval(e: ast.AST, env: Dict[str, object]):
     r = env['__callhook__'](e, env)
     if r is not NotImplemented:
       return r
-  if isinstance(e, ast.Call) and isinstance(e.func, ast.Name) and e.func.id in ('abs', 'min', 'max', 'float', 'int', 'range', 'list', 'tuple', 'len', 'sorted', 'reversed', 'set', 'frozenset', 'bool', 'str') and not e.keywords:
+  if isinstance(e, ast.Call) and isinstance(e.func, ast.Name) and e.func.id in ('abs', 'min', 'max', 'float', 'int', 'range', 'list', 'tuple', 'len', 'sorted', 'reversed', 'set', 'frozenset', 'bool', 'str', 'dict') and not e.keywords:
     fn_ = {'abs': abs, 'min': min, 'max': max, 'float': float, 'int': int, 'range': lambda *a: list(range(*a)), 'list': list,
            'tuple': tuple, 'len': len, 'sorted': sorted, 'reversed': lambda x: list(reversed(x)), 'set': set, 'frozenset': frozenset,
-           'bool': bool, 'str': str}[e.func.id]
+           'bool': bool, 'str': str, 'dict': dict}[e.func.id]
     try:
       return fn_(*[neval(a, env) for a in e.args])
     except (TypeError, ValueError):
@@ -329,6 +341,33 @@ def neval(e: ast.AST, env: Dict[str, object]):
     try:
       return {'ceil': _m.ceil, 'floor': _m.floor, 'round': round}[dotted_name(e.func).rsplit('.', 1)[-1]](v_)
     except (TypeError, ValueError):
+      raise NoValue(key)
+  if isinstance(e, ast.Call) and isinstance(e.func, ast.Attribute) and e.func.attr in ('items', 'keys', 'values', 'get') and not e.keywords:
+    try:
+      base = neval(e.func.value, env)
+    except NoValue:
+      base = None
+    if isinstance(base, dict):
+      if e.func.attr == 'get' and len(e.args) in (1, 2):
+        k_ = neval(e.args[0], env)
+        try:
+          if k_ in base:
+            return base[k_]
+        except TypeError:
+          raise NoValue(key)
+        return neval(e.args[1], env) if len(e.args) == 2 else None
+      if not e.args:
+        return {'items': lambda: list(base.items()), 'keys': lambda: list(base.keys()), 'values': lambda: list(base.values())}[e.func.attr]()
+  if isinstance(e, ast.DictComp) and all(not g.is_async for g in e.generators):
+    pairs = neval(ast.ListComp(elt=ast.Tuple(elts=[e.key, e.value], ctx=ast.Load()), generators=e.generators), env)
+    try:
+      return dict(pairs)
+    except TypeError:
+      raise NoValue(key)
+  if isinstance(e, ast.Dict) and all(k is not None for k in e.keys):
+    try:
+      return {neval(k, env): neval(v, env) for k, v in zip(e.keys, e.values)}
+    except TypeError:
       raise NoValue(key)
   if isinstance(e, ast.Call) and not e.keywords and (
       (isinstance(e.func, ast.Name) and e.func.id in ('enumerate', 'zip')) or dotted_name(e.func).endswith('itertools.compress')):
